@@ -162,7 +162,7 @@ PROPS["C04"] = _wq("C04", "Profile C04: mixed traffic, about a third of the case
 PROPS["C05"] = _wq("C05", "Profile C05: a third of the items carry adjust functions whose values change between dispatches; priority ranges 1, 3 and 6 (1 = all equal: FIFO).",
     "Proof: Less is the lexicographic (priority, arrival) strict weak order; the array-level heap invariant holds in every reachable state; every token decision pops a minimum of the adjusted heap "
     "(container/heap algorithms proved in C11); adjust-all consults every function; direct hand-offs only with an empty queue.")
-PROPS["C09"] = _wq("C09", "Profile C09: fill-first streams that reach W+L+2 outstanding items and blocked producers.",
+PROPS["C09"] = _wq("C09", "Profile C09: fill-first streams that reach W+L+2 outstanding items and blocked producers; one script in nine ends with Stop or Break in that state; besides the worker goroutines, the work functions started and not yet released are counted (never more than W, whichever goroutine runs them).",
     "Proof: CAP/PIPE/ROOM invariants for every reachable state; running <= W always; at quiescent points running = min(k, W - reporting); back-pressure bounds; full-branch threshold. "
     "'At no instant' is the model's notion of instant (between atomic steps).")
 PROPS["C14"] = _wq("C14", "Profile C14: 0-3 subscribers before traffic, more during it, 40% of results are errors.",
@@ -229,7 +229,7 @@ def _pub(pid, note, level_text):
               "sleep past the short timeout) on <= 4 subscribers, each case in its own process; after every stimulus buffer lengths, values received, callbacks and the number of pending delivery goroutines must equal those of "
               "one of the model's quiescent successors. " + note + " Plus ungated race-detector stress: 1-4 publishers x 1-5 subscribers x 10-220 unique messages with subscriber closers and Publication.Close racing, "
               "late subscribers (Subscribe while the publishers run, a marker published right after must arrive), no-wait subscribers (timeout 0), self-closing subscribers (OnTimeout closes them), "
-              "300 reject-all padding subscribers in every second round; subscriber churn (Subscribe, publish a marker, receive it, Close x 3000 / 60000 while four goroutines publish); subscribers whose OnFiltered callback closes them; and a slow-callback stimulus (an OnFiltered callback of 60 ms on one subscriber while another, with a short timeout, keeps receiving: no time-out may be recorded). "
+              "300 reject-all padding subscribers in every second round; subscriber churn (Subscribe, publish a marker, receive it, Close x 3000 / 60000 while four goroutines publish); subscribers whose OnFiltered callback closes them; and a slow-callback stimulus (an OnFiltered callback of 60 ms on one subscriber while another, with a short timeout, keeps receiving: no time-out may be recorded); and a zero-timeout stimulus (unbuffered subscribers with WithTimeout(0) and WithTimeout(-1s), in both option orders, nobody receiving: every message is dropped with its OnTimeout call and no delivery goroutine is left, well within 2 s). "
               "distinct_nontrivial = distinct scripts (hashed) with a pending delivery or a close + distinct stress configurations."),
         level_text=level_text,
         level_note="Trusted: Lean kernel; the hand-written LTS of publication.go; correspondence at quiescent granularity; real timers and goroutine exit are observed, not proved.",
@@ -260,7 +260,7 @@ PROPS["C17"] = dict(
           "middleware chains of length 0-4 over recording middlewares and LogRequest/LogResponse (the same list bundled twice in every second case), handlers that answer in four legitimate manners "
           "(plain, 103 Early Hints first, superfluous second WriteHeader, Flush, answer begun before the small request body is read, no Content-Type), gRPC with the repo's example service; every registered route plus a grid of other method/path "
           "combinations with bodies of 0 / 5-7 / 65536 bytes; compared: status, handler identity, what the handler saw (method, path, header, body length and hash), echo of the body, enter/leave order. "
-          "Plus 6 / 24 configurations with LogRequest and LogResponse in both orders (also doubled, also around a recording middleware) over five routes, one per manner of handler, three requests each with bodies of 5-65536 bytes. distinct_nontrivial = distinct configurations that served at least one route."),
+          "In two cases of three the configuration has been used before (one or two servers were built from it and discarded; the last one built is used). Plus 6 / 24 configurations with LogRequest and LogResponse in both orders (also doubled, also around a recording middleware) over five routes, one per manner of handler, three requests each with bodies of 5-65536 bytes. distinct_nontrivial = distinct configurations that served at least one route."),
     level_text=("Proof for the composition/routing/transparency logic: bundle = nested composition for every list length, recording traces enter in order / leave in reverse, LogRequest and LogResponse are the identity on "
                 "what the handler sees and the client gets, registered routes dispatch to exactly their handler, everything else is 404/405, each listener installs its own router. Partial: ServeMux beyond literal and subtree "
                 "patterns (redirects, wildcards, host patterns), TLS, HTTP framing and grpc-go are exercised by the loopback runs, not modelled."),
@@ -271,7 +271,7 @@ PROPS["C18"] = dict(
     components=[dict(name="lifecycle", shrink_lists=False, shrink=False, independent_lines=True)],
     clause_prefixes=["C18."],
     rule=("every non-empty subset of {HTTP, HTTPS, gRPC} x in-flight requests {0,1,4} (HTTP handlers blocked on a gate until Stop is under way, and as many gRPC calls held by a gated service: released under an ample context, to be cut off by Stop under an expired one) x Stop context {ample, already expired} x timing {after reachability, "
-          "immediately after Start}, plus a tight context and, per subset with a web listener, a retried Stop (a first Stop with an expired context gives up with 1-3 requests running, the observed second Stop has an ample one and must wait for them): 66 scenarios (x10 repetitions in the thorough tier), each in its own process on real loopback listeners (port numbers reserved by file locks), half of the immediate ones with a caller-supplied logger that takes 25 ms over the 'Starting' lines; observed: Start returned promptly, listeners reachable, in-flight "
+          "immediately after Start}, plus a tight context and, per subset with a web listener, a retried Stop (a first Stop with an expired context gives up with 1-3 requests running, the observed second Stop has an ample one and must wait for them; predicted from the model TV.StopRetry) and, per subset, a Stop with an ample context after the running context given to NewServer has been cancelled: 73 scenarios (x10 repetitions in the thorough tier), each in its own process on real loopback listeners (port numbers reserved by file locks), half of the immediate ones with a caller-supplied logger that takes 25 ms over the 'Starting' lines; observed: Start returned promptly, listeners reachable, in-flight "
           "responses completed, Stop did not return early (ample), Stop returned, error flag, WaitGroup released, ports bindable again. For every scenario the driver also explores all interleavings of the "
           "lifecycle LTS and checks that every maximal run ends stopped/closed/released and that the observed error flag is one the model can produce. distinct_nontrivial = distinct scenarios."),
     level_text=("Proof of the hand-shake protocol under the stated stdlib contracts: WaitGroup balance (never negative, = started and not returned), no deadlock of Start/Stop for every provider subset and interleaving "
